@@ -169,6 +169,7 @@ type Trace struct {
 	w   *bufio.Writer
 	n   int
 	bad []string // problems of the current line (abstraction failures)
+	badamt []string
 	mu  sync.Mutex
 }
 
@@ -186,11 +187,21 @@ func (t *Trace) flagBad(format string, args ...interface{}) {
 	t.bad = append(t.bad, fmt.Sprintf(format, args...))
 }
 
+// flagAmt: an amount could not be expressed in model units (not a multiple of
+// the run's unit, or out of range); only the money properties care.
+func (t *Trace) flagAmt(format string, args ...interface{}) {
+	t.mu.Lock()
+	defer t.mu.Unlock()
+	t.badamt = append(t.badamt, fmt.Sprintf(format, args...))
+}
+
 func (t *Trace) emit(line J) {
 	t.n++
 	line["i"] = t.n
 	line["bad"] = strings.Join(t.bad, "; ")
+	line["badamt"] = strings.Join(t.badamt, "; ")
 	t.bad = nil
+	t.badamt = nil
 	b, err := json.Marshal(line)
 	if err != nil {
 		panic(err)
